@@ -60,7 +60,7 @@ Section Stack.
       let! k := slot p v i in
       let! _ := vidx v k in
       Ok (upd v (Z.to_nat k) a, None)
-    else let! d := uadd p (i - vlen v) 1 in Ok (v, Some d).
+    else Ok (v, Some (Z.min (two64 - 1) (i - vlen v + 1))).         (* diff.saturating_add(1) *)
 
   Definition s_remove (p : profile) (v : vec) (i : Z) : res vec :=
     if i <? vlen v then
